@@ -741,6 +741,17 @@ func c08FaultFloor(tier string) []*C08Sc {
 			out = append(out, &C08Sc{HTTP: []HTTPReqSc{{Req: rich, Enc: enc, Mangle: "corrupt", Pos: pos, Val: []int{127, 7}[pos%2]}}})
 		}
 	}
+	// a TLS listener: the base workload next to peers that never complete the handshake, who leave at the end or are
+	// still there when the server is shut down
+	for _, hello := range []string{"", "silent", "partial", "garbage"} {
+		for _, stalled := range []bool{false, true} {
+			sc := c08BaseWorkload()
+			sc.TLS, sc.StalledShutdown = true, stalled
+			sc.Clients = append([]RawClientSc{{Hello: hello, Acts: sc.Clients[0].Acts}}, sc.Clients...)
+			sc.Clients = append(sc.Clients, RawClientSc{Hello: hello, Acts: sc.Clients[1].Acts})
+			out = append(out, sc)
+		}
+	}
 	ok1 := &ReqSc{Version: 4, Items: []ItemSc{{Tok: "ok"}}}
 	for _, capy := range []int{0, 16, 64} {
 		for _, n := range []int{1, 3} {
